@@ -25,7 +25,7 @@ THEOREMS += [("FlatModel.Props.C07MG", "FC.C07." + t) for t in (
     "est_le_trueCount", "trueCount_le_est_add_D", "accounting", "weight_le_total", "mg_error_bound", "mg_error_bound_pos", "heavy_survives", "heavy_survives_pos", "mg_invariant_generic", "mg_error_bound_generic", "classical_bound_fails", "done_spec", "mergedMG_of_histories", "merged_estimate", "dominant_in_summary", "push_hit_one_byte", "ranked_heavy_hitter_one_byte", "dominant_strings_tagged")]
 # the one place where the value of the regenerated constant is looked at (`by decide`): capacity 0 / 1 / not recognised fail here
 THEOREMS += [("FlatModel.Proofs.MGCap", "FC.Codec." + t) for t in ("MG.two_le_cap", "run_length_lt_cap")]
-PROFILES = {"quick": ["checked"], "thorough": ["checked", "wrapping"], "search": ["checked"]}
+PROFILES = {"quick": ["checked", "wrapping"], "thorough": ["checked", "wrapping"], "search": ["checked"]}
 
 _ROOT = os.path.dirname(os.path.dirname(os.path.dirname(os.path.abspath(__file__))))
 DEFAULT_CAP = 1024      # used by the generator only when the extractor did not recognise the source (the Lean build fails then)
